@@ -273,6 +273,85 @@ def _run_one(shard):
         return ("err", f"shard {shard!r}:\n{traceback.format_exc()}")
 
 
+def _exit_text(code):
+    if code is not None and code < 0:
+        try:
+            return f"killed by {signal.Signals(-code).name}"
+        except ValueError:
+            return f"killed by signal {-code}"
+    return f"exit code {code}"
+
+
+def _worker_loop(conn, modname, tier):
+    _init_worker(modname, tier)
+    while True:
+        try:
+            sh = conn.recv()
+        except EOFError:
+            break
+        if sh is None:
+            break
+        conn.send(_run_one(sh))
+    conn.close()
+    os._exit(0)
+
+
+def _pool_map(modname, tier, shards, workers):
+    """long-lived forked workers, one shard at a time each; unlike multiprocessing.Pool a worker that dies (stack overflow
+    in the interpreter, a fatal signal) is noticed: its shard is yielded as ("died", (shard, exitcode)) and a fresh worker
+    takes its place, so a run never waits for a result that cannot come."""
+    from multiprocessing.connection import wait
+    ctx = multiprocessing.get_context("fork")
+    todo = list(shards)
+    live = {}                   # parent connection -> [process, shard or None]
+
+    def spawn():
+        parent, child = ctx.Pipe()
+        p = ctx.Process(target=_worker_loop, args=(child, modname, tier), daemon=True)
+        p.start()
+        child.close()
+        live[parent] = [p, None]
+        return parent
+
+    def feed(conn):
+        if todo:
+            sh = todo.pop(0)
+            live[conn][1] = sh
+            conn.send(sh)
+        else:
+            try:
+                conn.send(None)
+            except OSError:
+                pass
+            live.pop(conn)[0].join(5)
+            conn.close()
+
+    try:
+        for _ in range(min(workers, len(todo))):
+            feed(spawn())
+        while live:
+            for conn in wait(list(live)):
+                p, sh = live[conn]
+                try:
+                    res = conn.recv()
+                except (EOFError, OSError):
+                    p.join(5)
+                    live.pop(conn)
+                    conn.close()
+                    if sh is not None:
+                        yield ("died", (sh, p.exitcode))
+                    if todo:
+                        feed(spawn())
+                    continue
+                live[conn][1] = None
+                yield res
+                feed(conn)
+    finally:
+        for conn, (p, _) in list(live.items()):
+            if p.is_alive():
+                p.terminate()
+
+
 def run_property(modname, tier, seed, workers=None, only_shards=None):
     t0 = time.time()
     bootstrap()
@@ -299,18 +378,23 @@ def run_property(modname, tier, seed, workers=None, only_shards=None):
             else:
                 errors.append(r)
     else:
-        ctx = multiprocessing.get_context("fork")
-        with ctx.Pool(workers, initializer=_init_worker, initargs=(modname, tier),
-                      maxtasksperchild=getattr(mod, "MAXTASKS", None)) as pool:
-            done = 0
-            for st, r in pool.imap_unordered(_run_one, shards, chunksize=1):
-                done += 1
-                if os.environ.get("UTMC_PROGRESS"):
-                    sys.stderr.write(f"[{time.time() - t0:7.1f}s] {done}/{len(shards)} shards\n")
-                if st == "ok":
-                    total.merge(r)
-                else:
-                    errors.append(r)
+        done = 0
+        for st, r in _pool_map(modname, tier, shards, workers):
+            done += 1
+            if os.environ.get("UTMC_PROGRESS"):
+                sys.stderr.write(f"[{time.time() - t0:7.1f}s] {done}/{len(shards)} shards\n")
+            if st == "ok":
+                total.merge(r)
+            elif st == "died":
+                # the interpreter itself went down while the library ran this shard's cases: no verdict was produced for
+                # them, which no property allows (every one of them states an outcome for every input)
+                sh, code = r
+                idx = list(mod.shards(tier)).index(sh)
+                total.violation(f"{pid}|interpreter-died|shard={sh!r}",
+                                f"the worker process exploring shard #{idx} {sh!r} died ({_exit_text(code)}) instead of "
+                                f"returning results", f"# re-run the shard alone:  ./check {pid} --tier {tier} --shard {idx}\n")
+            else:
+                errors.append(r)
     if errors:
         sys.stderr.write("HARNESS ERROR (not a property verdict):\n" + "\n".join(errors[:5]) + "\n")
         sys.exit(2)
